@@ -3,6 +3,10 @@
 package table
 
 import (
+	"bytes"
+	"time"
+
+	"github.com/grafana/carbon-relay-ng/aggregator"
 	"github.com/grafana/carbon-relay-ng/matcher"
 	"github.com/grafana/carbon-relay-ng/rewriter"
 	m20 "github.com/metrics20/go-metrics20/carbon20"
@@ -144,5 +148,43 @@ func VerifC04Isolation() {
 		line[i] = verifByte("overwrite")
 	}
 	verifAssert(string(r1.got[0]) == d1 && string(r2.got[0]) == d1, "delivered-line-stable-after-buffer-reuse")
+	verifCover("end")
+}
+
+// VerifC04IsolationAgg: a point queued in an aggregation's inbox is not affected when the reader reuses
+// its buffer right after the hand-off (the aggregation must see the name it was handed, not what the
+// buffer holds later); with and without a rewriter that is skipped by its not-clause.
+func VerifC04IsolationAgg() {
+	aggregator.InitMetrics()
+	t := verifNewTable(m20.NoneLegacy, m20.NoneM20, false)
+	if verifBool("with-skipped-rewriter") {
+		rw, _ := rewriter.New("a", "bb", "a", -1) // never applies: its not-clause matches whenever old does
+		t.AddRewriter(rw)
+	}
+	am, _ := matcher.New("", "", "", "", "(.*)", "")
+	out := make(chan []byte, 4)
+	tick := make(chan time.Time, 1)
+	agg, err := aggregator.NewMocked("sum", am, "agg.$1", false, 10, 20, false, out, 4, verifNowFixed, tick)
+	if err != nil {
+		panic(err)
+	}
+	t.AddAggregator(agg)
+	name := verifName(2)
+	line := append(append([]byte{}, name...), []byte(" 5 1499999995")...)
+	orig := append([]byte{}, name...)
+	t.Dispatch(line)
+	// the aggregation goroutine has not run yet; the reader now reuses its buffer
+	for i := range line {
+		line[i] = 'X'
+	}
+	verifSettle()
+	tick <- time.Unix(1500000100, 0)
+	verifSettle()
+	select {
+	case got := <-out:
+		verifAssert(bytes.Contains(got, orig), "aggregation-saw-the-name-it-was-handed")
+	default:
+		verifAssert(false, "aggregation-produced-output")
+	}
 	verifCover("end")
 }
